@@ -21,7 +21,13 @@ fn inputs() -> Vec<Input> {
     for i in 0..300 {
         large.push_str(&format!(".c{} {{ w: {}px; &:hover {{ c: red; }} }}\n", i, i));
     }
+    // a multi-line banner comment followed by output that is one long line in compressed style
+    let mut banner = String::from("/*! banner\n * second line\n */\n");
+    for i in 0..120 {
+        banner.push_str(&format!(".b{} {{ w: {}px; }}\n", i, i));
+    }
     vec![
+        Input { name: "banner-long-line", file: "banner.scss", content: banner.into_bytes(), exists: true },
         Input { name: "ascii", file: "ascii.scss", content: b"$a: 1px; a { b: $a * 2; c { d: e; } }".to_vec(), exists: true },
         Input { name: "non-ascii", file: "nonascii.scss", content: "a { content: \"\u{e9}\u{1F600}\"; }".as_bytes().to_vec(), exists: true },
         Input { name: "empty", file: "empty.scss", content: vec![], exists: true },
@@ -272,7 +278,7 @@ pub fn run(ctx: &Ctx) {
             }
         },
     );
-    ctx.bound(sub, "2^5 flag combinations x {file argument, --stdin} x {stdout, output file, unwritable output file} x 14 input kinds (combinations the CLI cannot express are skipped)", true);
+    ctx.bound(sub, "2^5 flag combinations x {file argument, --stdin} x {stdout, output file, unwritable output file} x 15 input kinds (combinations the CLI cannot express are skipped)", true);
     ctx.sample(sub, json!({"args": ["--style", "compressed", "--no-unicode", "runtimeerr.scss"], "oracle": "exit != 0, stderr = library's rendered error, stdout empty"}));
 
     // ---- load paths keep the order of the command line ----------------------------------------
@@ -349,6 +355,102 @@ pub fn run(ctx: &Ctx) {
         );
         ctx.bound(sub, "every sequence of 1..3 --load-path options over 3 directories (repetitions allowed; two of them shadow the same module) x {@import, @use} x {file argument, --stdin}: stdout equals the library's CSS for the same list in the same order", true);
         ctx.sample(sub, json!({"args": ["--load-path", "za", "--load-path", "ab", "lporder.scss"], "expected": "a { w: za; }"}));
+    }
+
+    // ---- states of the output file before the run -------------------------------------------------
+    {
+        let sub = "output-file-states";
+        let _ = std::fs::write(cwd.join("ofs.scss"), "a { b: c; }\n");
+        let _ = std::fs::write(cwd.join("ofs-err.scss"), "a { b: 1 + ; }\n");
+        // (name, prepare, expect success)
+        let states = ["absent", "existing-longer", "existing-shorter", "existing-empty", "is-directory", "parent-is-file"];
+        let n = (states.len() * 2 * 2) as u64;
+        par(
+            ctx,
+            sub,
+            n,
+            |i| json!({"state": states[(i as usize / 4) % states.len()], "compressed": i % 2 == 1, "failing_input": (i / 2) % 2 == 1}),
+            |i, l| {
+                let st = states[(i as usize / 4) % states.len()];
+                let compressed = i % 2 == 1;
+                let failing = (i / 2) % 2 == 1;
+                let out = format!("out/ofs-{}", i);
+                let outp = cwd.join(&out);
+                let _ = std::fs::remove_dir_all(&outp);
+                let _ = std::fs::remove_file(&outp);
+                let long = "x".repeat(5000);
+                let mut target = out.clone();
+                match st {
+                    "existing-longer" => {
+                        let _ = std::fs::write(&outp, &long);
+                    }
+                    "existing-shorter" => {
+                        let _ = std::fs::write(&outp, "y");
+                    }
+                    "existing-empty" => {
+                        let _ = std::fs::write(&outp, "");
+                    }
+                    "is-directory" => {
+                        let _ = std::fs::create_dir_all(&outp);
+                    }
+                    "parent-is-file" => {
+                        let _ = std::fs::write(&outp, "z");
+                        target = format!("{}/o.css", out);
+                    }
+                    _ => {}
+                }
+                let input = if failing { "ofs-err.scss" } else { "ofs.scss" };
+                let args: Vec<String> = vec!["--style".into(), if compressed { "compressed" } else { "expanded" }.into(), input.into(), target.clone()];
+                let cfg = Cfg { syntax: None, compressed, ..Cfg::default() };
+                let lib = compile_path(input, &cfg, &Env { fs: &grass_compiler::StdFs, logger: &grass_compiler::NullLogger });
+                l.evals += 2;
+                let r = run_cli(&bin, &cwd, &args, None);
+                l.outcome(digest(&r.stderr) ^ r.status.unwrap_or(-1) as u64);
+                l.validated += 1;
+                let key = format!("cli:output-state:{}:{}:{}", st, compressed, failing);
+                let after = std::fs::read(&outp).ok();
+                let detail = json!({"args": args, "state": st, "exit": r.status, "stderr": String::from_utf8_lossy(&r.stderr).chars().take(300).collect::<String>(), "file_after": after.as_ref().map(|b| String::from_utf8_lossy(b).chars().take(200).collect::<String>())});
+                let mut bad: Vec<String> = Vec::new();
+                if !r.stdout.is_empty() {
+                    bad.push("CSS on stdout although an output file was named".into());
+                }
+                let writable = !matches!(st, "is-directory" | "parent-is-file");
+                match (&lib, writable) {
+                    (Outcome::Ok(css), true) => {
+                        l.nontrivial += 1;
+                        if r.status != Some(0) {
+                            bad.push(format!("exit status {:?}", r.status));
+                        }
+                        if after.as_deref() != Some(css.as_bytes()) {
+                            bad.push("the output file does not hold exactly the library's CSS (old content must be replaced, not overwritten in place)".into());
+                        }
+                    }
+                    (Outcome::Ok(_), false) => {
+                        if r.status == Some(0) || r.stderr.is_empty() {
+                            bad.push(format!("the output file cannot be created, yet exit {:?} / stderr {:?}", r.status, String::from_utf8_lossy(&r.stderr)));
+                        }
+                    }
+                    (_, _) => {
+                        if r.status == Some(0) || r.stderr.is_empty() {
+                            bad.push(format!("the compilation fails, yet exit {:?}", r.status));
+                        }
+                        // no CSS may be written for a failing compilation
+                        if let Some(a) = &after {
+                            if a.windows(2).any(|w| w == b"a{" || w == b"a ") && st != "existing-longer" {
+                                bad.push("CSS in the output file although the compilation failed".into());
+                            }
+                        }
+                    }
+                }
+                let _ = std::fs::remove_dir_all(&outp);
+                let _ = std::fs::remove_file(&outp);
+                if !bad.is_empty() {
+                    ctx.violation(sub, &key, &bad.join("; "), detail);
+                }
+            },
+        );
+        ctx.bound(sub, "6 states of the named output file before the run (absent, existing with longer / shorter / empty content, a directory, below a regular file) x 2 styles x {compiling, failing input}: afterwards the file holds exactly the library's CSS, or the run fails with a message", true);
+        ctx.sample(sub, json!({"state": "existing-longer", "oracle": "file == library CSS (truncated)"}));
     }
 
     // ---- a failing write of the output file is an error ------------------------------------------
